@@ -17,12 +17,13 @@ import c05ref as R  # noqa: E402  (exact helpers: signs, rational orthogonal mat
 
 PROPS = ["TfelVerif.C03.Props"]
 SOLVERS = ["TFEL", "FSESANALYTICAL", "FSESJACOBI", "FSESQL", "FSESCUPPEN", "FSESHYBRID", "GTEQR", "HARARI"]
-# a residual at or above this value (relative to |A|), or a non finite output, is reported as a violation of the
-# property for that (solver, dimension, family). On the tree of 2026-09-22 FSESJACOBI, FSESQL (after the
-# is_negligible fix) and GTEQR stay below 1e-13 on every family except extreme scaling for QL; the closed-form
-# solvers (TFEL default, FSESANALYTICAL, FSESCUPPEN, FSESHYBRID, HARARI) exceed it on (nearly) degenerate spectra
-# and overflow for |A| beyond ~1e50: genuine findings, reported with the tensor as replay.
-THRESHOLD = 1e-6
+# Solver specific tolerances (relative to |A|_F) for the reconstruction / orthonormality / eigen-equation residuals.
+# docs/web/tensors.md gives no figures ("more efficient but less accurate than the iterative Jacobi algorithm"), so:
+# 1e-3 for the closed-form / analytical family, 1e-10 for the iterative solvers (coordinator's decision 2026-09-22).
+# A residual at or above the tolerance (eigenvectors that are not even approximately orthonormal) or a non finite
+# output on a finite tensor is a violation, one stable key per (solver, dimension, family).
+TOL = {"TFEL": 1e-3, "HARARI": 1e-3, "FSESANALYTICAL": 1e-3, "FSESCUPPEN": 1e-3, "FSESHYBRID": 1e-3,
+       "FSESJACOBI": 1e-10, "FSESQL": 1e-10, "GTEQR": 1e-10}
 
 HALF = Q2(Fraction(1, 2))
 
@@ -119,7 +120,9 @@ def reference(name, rng):
         if (R.sign(w[q_] - w[p_]) < 0) != neg:
             w[p_], w[q_] = w[q_], w[p_]
         apq = q(Fraction(rng.randint(1, 9), rng.choice([2, 3, 5])))
-        off = {(0, 1): R.ZERO, (0, 2): R.ZERO, (1, 2): R.ZERO}
+        # the two other off-diagonal entries are symbols in the trace (zero only in its shadow): the traced formulas
+        # are compared with the rotation formulas at general values (the path condition is not imposed for these units)
+        off = {(0, 1): q(R.rnd(rng, nonzero=True)), (0, 2): q(R.rnd(rng, nonzero=True)), (1, 2): q(R.rnd(rng, nonzero=True))}
         off[(p_, q_)] = apq
         env = {"a00": w[0], "a11": w[1], "a22": w[2], "a01": off[(0, 1)], "a02": off[(0, 2)], "a12": off[(1, 2)]}
         h = w[q_] - w[p_]
@@ -142,9 +145,12 @@ def reference(name, rng):
         for i in range(3):
             for j in range(3):
                 exp["q%d_%d" % (i, j)] = G[i][j]
-        # the off-diagonal entries not rotated to zero mix the two others (zero in these inputs: the search keeps the
-        # shadow pattern of the trace; the general update is what the Lean theorems prove)
-        exp.update({"b01": R.ZERO, "b02": R.ZERO, "b12": R.ZERO, "ret": R.ZERO})
+        A = M3.sym(w[0], w[1], w[2], off[(0, 1)], off[(0, 2)], off[(1, 2)])
+        Gm = M3(G)
+        B = Gm.T() * A * Gm
+        names = {(0, 1): "b01", (0, 2): "b02", (1, 2): "b12"}
+        for (i, j), nm in names.items():
+            exp[nm] = R.ZERO if (i, j) == (p_, q_) else B.a[i][j]
         return env, exp
     if name.startswith("sytrd3_"):
         kind = name.split("_")[1]
@@ -194,7 +200,7 @@ def search(ck, units, rng, trials):
             except (ZeroDivisionError, RuntimeError, emit.NotExact):
                 stats["skipped"] += 1
                 continue
-            if not path_holds(u, val):
+            if not u.name.startswith("jacobi_") and not path_holds(u, val):
                 stats["path_mismatch_skipped"] += 1
                 continue
             stats["points"] += 1
@@ -286,13 +292,34 @@ def run(ck):
             return None
         ck.lean_violations(res, find)
     for f in found:
+        m6 = None
+        if "a00" in f["inputs"]:
+            m6 = [f["inputs"][k] for k in ("a00", "a11", "a22", "a01", "a02", "a12")]
+        elif "s0" in f["inputs"]:
+            m6 = [f["inputs"]["s0"], f["inputs"]["s1"], f["inputs"]["s2"]] + [f["inputs"][k] / math.sqrt(2.) for k in ("s3", "s4", "s5")]
+        if m6:
+            rr, _ = residuals(ck, bins["c03resid"], [("t1", 3, m6)])
+            if rr:
+                f["real_code_residuals_at_this_tensor"] = {r[2]: r[3] for r in rr}
+    for f in found:
         if f["unit"] not in reported:
             ck.violation("unit:" + f["unit"], "traced unit %s disagrees with the reference formulas at an exact input: output %s = %s, expected %s"
                          % (f["unit"], f["output"], f["code_value_exact"], f["spec_value_exact"]), f, True)
     # ---- residual report on the real code
-    cases = families(rng, 6 if ck.quick else 120)
+    # directed sub-corpus first (fixed witnesses: the same keys fire at every seed), then seeded random families
+    directed = []
+    cp = os.path.join(vlib.VERIF, "corpus", "C03", "directed.txt")
+    if os.path.exists(cp):
+        for line in open(cp):
+            f = line.split()
+            if not f or f[0].startswith("#"):
+                continue
+            fam = f[0].split(":")[-1]
+            directed.append(("%s#d%d" % (fam, len(directed)), int(f[1]), [float(x) for x in f[2:8]]))
+    cases = directed + families(rng, 6 if ck.quick else 120)
     rows, err = residuals(ck, bins["c03resid"], cases)
     report = {}
+    keys_fired = []
     if rows is None:
         ck.violation("residual-harness-crash", "the residual harness aborted on the current tree", {"stderr": err}, False)
     else:
@@ -300,22 +327,32 @@ def run(ck):
         worst = {}
         for cid, N, solver, r, finite in rows:
             fam = cid.split("#")[0]
-            key = "%s/N%d" % (solver, N)
-            val = max(r) if (finite and all(not math.isnan(x) for x in r)) else float("inf")
-            e = report.setdefault(key, {})
-            e[fam] = max(e.get(fam, 0.0), val)
-            k2 = (key, fam)
-            if val >= THRESHOLD and (k2 not in worst or val > worst[k2][0]):
-                worst[k2] = (val, cid, r, finite)
-        for (key, fam), (val, cid, r, finite) in sorted(worst.items()):
+            nonfin = (not finite) or any(math.isnan(x) for x in r)
+            val = float("inf") if nonfin else max(r)
+            e = report.setdefault("%s/N%d" % (solver, N), {})
+            if not nonfin:
+                e[fam] = max(e.get(fam, 0.0), val)
+            else:
+                e[fam + ":nonfinite"] = e.get(fam + ":nonfinite", 0) + 1
+            if nonfin:
+                key = "nonfinite:%s/N%d:%s" % (solver, N, fam)
+            elif val >= TOL[solver]:
+                key = "residual:%s/N%d:%s" % (solver, N, fam)
+            else:
+                continue
+            # keep the first witness (directed corpus first => deterministic replay)
+            if key not in worst:
+                worst[key] = (val, cid, r, finite, solver)
+        for key, (val, cid, r, finite, solver) in sorted(worst.items()):
             N, m = byid[cid]
-            what = ("non finite eigenvalues/eigenvectors" if not finite or val == float("inf")
-                    else "residual %.3g >= %.0e" % (val, THRESHOLD))
-            ck.violation("residual:%s:%s" % (key, fam),
-                         "%s returns an invalid spectral decomposition (%s) for the finite symmetric tensor (a00 a11 a22 a01 a02 a12) = %s [family %s]"
-                         % (key, what, " ".join("%.17g" % x for x in m), fam),
-                         {"solver": key, "family": fam, "matrix_a00_a11_a22_a01_a02_a12": m, "N": N,
-                          "residuals_recon_orth_eigeq_evdiff": r, "finite": finite,
+            what = ("non finite eigenvalues/eigenvectors" if key.startswith("nonfinite")
+                    else "residual %.3g >= tolerance %.0e" % (val, TOL[solver]))
+            keys_fired.append(key)
+            ck.violation(key,
+                         "%s: %s for the finite symmetric tensor (a00 a11 a22 a01 a02 a12) = %s"
+                         % (key, what, " ".join("%.17g" % x for x in m)),
+                         {"solver": solver, "family": cid.split("#")[0], "matrix_a00_a11_a22_a01_a02_a12": m, "N": N,
+                          "residuals_recon_orth_eigeq_evdiff": r, "finite": finite, "tolerance": TOL[solver],
                           "replay": "echo 'x %d %s' | work/C03/c03resid   (harness/C03/residual.cxx built against the tree)" % (N, " ".join("%.17g" % x for x in m))}, True)
     if ck.tier == "thorough" and res.ok:
         for m, log in ck.leanchecker(PROPS):
@@ -325,7 +362,7 @@ def run(ck):
         "exact field semantics: rounding, overflow, underflow not modelled; sqrt/cos/sin/atan2 uninterpreted, the laws used are explicit hypotheses of the theorems",
         "harness/C03/trace.cxx: tfel::math::abs/std::max/std::min recorded as nodes, std::fpclassify decided by the shadow value and recorded as a path condition, the default solver's eigenvalue routine (CubicRoots, C10) stubbed; intermediate quantities (theta,t,c,s,...) are recomputed in the harness with the solver's formulas and identified with the solver's own nodes by common subexpression elimination",
         "the residual harness is compiled with -DNDEBUG (release behaviour): in a debug build the default solver aborts on an assert for some nearly triple-degenerate tensors (StensorComputeEigenVectors.hxx:391)",
-        "PARTIAL: tolerances, finiteness and convergence are floating point facts: not proved, only measured by the residual report on the real code (threshold %g relative); QL sweeps, Cuppen, Gte, Harari and the is_negligible shortcuts are not traced" % THRESHOLD,
+        "PARTIAL: tolerances, finiteness and convergence are floating point facts: not proved, only measured by the residual report on the real code (solver specific tolerances %s); QL sweeps, Cuppen, Gte, Harari and the is_negligible shortcuts are not traced" % TOL,
     ]
     return ck.finish({
         "units_traced": len(units), "outputs_traced": sum(len(u.outs) for u in units),
@@ -335,6 +372,7 @@ def run(ck):
         "rule": "T1 units: exact evaluation over Q(sqrt2) at seeded random rational inputs satisfying the recorded path condition, against the formulas the theorems are about; residual report: one evaluation = one (matrix, solver) pair on the real double code, matrices from the families diag/zero/repeated/near/scaled/mixed/random/rank1 in 1D, 2D, 3D",
         "search_stats": stats,
         "residual_cases": len(cases), "residual_rows": len(rows) if rows else 0,
+        "tolerances": TOL, "directed_corpus_cases": len(directed), "violation_keys_fired": keys_fired,
         "max_residual_per_solver_and_family": report,
         "samples": [{"id": cid, "N": N, "matrix": m} for cid, N, m in cases[:3]],
     })
